@@ -4,6 +4,7 @@ From CppcmsV Require Import Base.Tac Base.CSem C02.Defs C02.Proofs C02.Proofs2 C
 Local Open Scope Z_scope.
 
 (* 1. declared length arithmetic: atoll is a saturating signed 64-bit value; a negative declared length is rejected
+      (for applications whose filter set-up call does not itself throw - those answer 403/500 before the length is looked at)
       with 400, one above the applicable limit with 413, in both cases without any handler call and with at most one
       on_error notification; what reaches post_data.resize()/the content reader is positive and within the limit *)
 Theorem declared_length_is_saturating_int64 : forall s, LLONG_MIN <= atoll s <= LLONG_MAX.
@@ -12,11 +13,11 @@ Print Assumptions declared_length_is_saturating_int64.
 Theorem minus_digits_is_negative : forall c t, isdigit c = true -> c <> 48%N -> atoll (45%N :: c :: t) < 0.
 Proof. exact atoll_minus_negative. Qed.
 Print Assumptions minus_digits_is_negative.
-Theorem bad_length_rejected : forall script cl ct a, mounted script = Some a -> cl < 0 ->
+Theorem bad_length_rejected : forall script cl ct a, mounted script = Some a -> setup_throws a = false -> cl < 0 ->
   exists cnt, content_start script cl ct = CStatus 400 cnt /\ handled cnt = 0 /\ c_err cnt <= 1.
 Proof. exact content_start_negative. Qed.
 Print Assumptions bad_length_rejected.
-Theorem oversized_length_rejected : forall script cl ct a, mounted script = Some a ->
+Theorem oversized_length_rejected : forall script cl ct a, mounted script = Some a -> setup_throws a = false ->
   cl > (if is_multipart ct then mp_limit else cl_limit) ->
   exists cnt, content_start script cl ct = CStatus 413 cnt /\ handled cnt = 0 /\ c_err cnt <= 1.
 Proof. exact content_start_too_large. Qed.
@@ -26,13 +27,15 @@ Theorem content_buffer_request_bounded : forall script cl ct a n setup,
 Proof. exact content_start_need. Qed.
 Print Assumptions content_buffer_request_bounded.
 Theorem error_status_means_not_handled : forall script cl ct code cnt, content_start script cl ct = CStatus code cnt ->
-  (code = 404 \/ code = 400 \/ code = 413) /\ cnt_ok cnt /\ handled cnt = 0 /\ c_err cnt <= 1 /\ c_err cnt = c_setup cnt /\ c_end cnt = 0.
+  (code = 404 \/ code = 400 \/ code = 413 \/ code = 403 \/ code = 500) /\ cnt_ok cnt /\ handled cnt = 0 /\ c_err cnt <= 1 /\
+  c_setup cnt = c_err cnt + c_abort cnt /\ c_abort cnt <= 1 /\ c_end cnt = 0.
 Proof. exact content_start_status. Qed.
 Print Assumptions error_status_means_not_handled.
 Example declared_length_nonvacuous :
   atoll [45;49]%N = -1 /\ atoll [57;57;57;57;57;57;57;57;57;57;57;57;57;57;57;57;57;57;57;57]%N = LLONG_MAX /\
-  content_start s_up (-1) [] = CStatus 400 (mkC 0 0 1 0 1 0) /\ content_start s_sync 2049 [] = CStatus 413 c0 /\
-  content_start s_sync 2048 [] = CNeed AppSync 2048 false.
+  content_start s_up (-1) [] = CStatus 400 (mkC 0 0 1 0 1 0 0) /\ content_start s_sync 2049 [] = CStatus 413 c0 /\
+  content_start s_sync 2048 [] = CNeed AppSync 2048 false /\
+  content_start s_upa 5 [] = CStatus 403 (mkC 0 0 1 0 0 0 1) /\ content_start s_upt (-1) [] = CStatus 500 (mkC 0 0 1 0 0 0 1).
 Proof. vm_compute. repeat split. Qed.
 
 (* 2. HTTP header parser: header_.resize(header_.size()-2) is executed only when the header holds at least two bytes *)
@@ -71,7 +74,8 @@ Print Assumptions http_header_reader_consumes.
       page, the bare 400, a silent close or an unsafe read is always the LAST thing that happens on the connection;
       the number of handler calls equals the number of 200 replies (one call per served request, none for any other
       outcome); on_error is called at most once per connection, only if the run ends in a non-reply, and only after the
-      filter was installed (c_setup <= c_main + c_err); on_end_of_content at most once per installed filter *)
+      filter was installed; every filter set-up call is accounted for by a handler call, an on_error notification or the
+      exception it threw itself (c_setup <= c_main + c_err + c_abort); on_end_of_content at most once per installed filter *)
 Theorem http_at_most_once : forall segments, run_ok (http_run segments).
 Proof. exact http_run_ok. Qed.
 Print Assumptions http_at_most_once.
@@ -83,11 +87,11 @@ Proof. exact fcgi_run_ok. Qed.
 Print Assumptions fcgi_at_most_once.
 Example at_most_once_nonvacuous :
   http_run [[71;69;84;32;47;115;121;110;99;32;72;84;84;80;47;49;46;49;13;10;67;111;110;110;101;99;116;105;111;110;58;32;107;101;101;112;45;97;108;105;118;101;13;10;13;10;80;79;83;84;32;47;117;112;32;72;84;84;80;47;49;46;48;13;10;67;111;110;116;101;110;116;45;76;101;110;103;116;104;58;32;45;49;13;10;13;10]%N]
-    = ([IOk AppSync; IStatus 400], mkC 1 0 1 0 1 0) /\
+    = ([IOk AppSync; IStatus 400], mkC 1 0 1 0 1 0 0) /\
   scgi_run [51;53;58;83;67;82;73;80;84;95;78;65;77;69;0;47;115;121;110;99;0;67;79;78;84;69;78;84;95;76;69;78;71;84;72;0;51;0;44;97;98;99]%N
-    = ([IOk AppSync], mkC 1 0 0 0 0 0) /\
+    = ([IOk AppSync], mkC 1 0 0 0 0 0 0) /\
   fcgi_run [1;1;0;1;0;8;0;0;0;1;1;0;0;0;0;0;1;4;0;1;0;19;0;0;11;6;83;67;82;73;80;84;95;78;65;77;69;47;97;115;121;110;99;1;4;0;1;0;0;0;0;1;5;0;1;0;0;0;0;1;1;0;1;0;8;0;0;0;2;0;0;0;0;0;0;1;1;0;1;0;8;0;0;0;1;0;0;0;0;0;0;1;5;0;1;0;0;0;0]%N
-    = ([IOk AppAsync; IUnknownRole; IEnd], mkC 0 1 0 0 0 0).
+    = ([IOk AppAsync; IUnknownRole; IEnd], mkC 0 1 0 0 0 0 0).
 Proof. vm_compute. repeat split. Qed.
 
 (* 6. index arithmetic.  FastCGI read_len / parse_pairs (both overloads): with the `uint32_t(e - p) >= len` tests every
@@ -147,13 +151,13 @@ Print Assumptions http_header_bytes_bounded_general.
       application produces exactly [400] / [413] and no handler call *)
 Theorem http_negative_length_connection : forall f s i r rest i1 script a,
   hdr_loop s parser0 hreq0 (Z.of_nat (avail i)) i = HDone r rest i1 ->
-  process_request r = PScript script -> mounted script = Some a -> h_cl r < 0 ->
+  process_request r = PScript script -> mounted script = Some a -> setup_throws a = false -> h_cl r < 0 ->
   exists cnt, http_conn (S f) s i = ([IStatus 400], cnt) /\ handled cnt = 0 /\ c_err cnt <= 1.
 Proof. exact http_conn_bad_length. Qed.
 Print Assumptions http_negative_length_connection.
 Theorem http_oversized_length_connection : forall f s i r rest i1 script a,
   hdr_loop s parser0 hreq0 (Z.of_nat (avail i)) i = HDone r rest i1 ->
-  process_request r = PScript script -> mounted script = Some a ->
+  process_request r = PScript script -> mounted script = Some a -> setup_throws a = false ->
   h_cl r > (if is_multipart (h_ct r) then mp_limit else cl_limit) ->
   exists cnt, http_conn (S f) s i = ([IStatus 413], cnt) /\ handled cnt = 0 /\ c_err cnt <= 1.
 Proof. exact http_conn_oversized. Qed.
